@@ -29,6 +29,10 @@ var (
 	c02XMLValue  = regexp.MustCompile(` value="[^"]*"`)
 	c02JSONType  = regexp.MustCompile(`"type": ?"[A-Za-z]*"`)
 	c02JSONValue = regexp.MustCompile(`"value": ?("[^"]*"|-?[0-9.eE+]+|true|false)`)
+	c02JSONObj   = regexp.MustCompile(`\{"tag"`)
+	c02JSONArr   = regexp.MustCompile(`"value": ?\[`)
+	c02XMLOpen   = regexp.MustCompile(`<[A-Za-z]`)
+	c02XMLLeaf   = regexp.MustCompile(`/>`)
 	c02TypeNames = []string{"Structure", "Integer", "LongInteger", "BigInteger", "Enumeration", "Boolean", "TextString", "ByteString", "DateTime", "Interval", "Bogus", "", "integer"}
 	c02Literals  = []string{"", "0", "-1", "0x", "0x0", "0xZZ", "0x-1", "-0x1", "abc", "1e400", "99999999999999999999999999", "-99999999999999999999999999", "0xffffffffffffffffffffffff",
 		"true", "TRUE", "2020-13-45T00:00:00Z", "2020-01-01T00:00:00+99:00", "9999999-01-01T00:00:00Z", "A|B", "|", " ", "0x80000000", "4294967296", "0xFFFFFFFFFFFFFFFFFF", "zz", "0A", "0a0", "\u00e9"}
@@ -48,7 +52,51 @@ func c02TextMutate(r *h.Rand, format string, doc []byte) ([]byte, string) {
 	if len(doc) == 0 {
 		return doc, "empty"
 	}
-	switch r.Intn(9) {
+	switch r.Intn(11) {
+	case 9:
+		// a member of a structure's value array that is not an object (JSON) / stray character
+		// data or an unexpected child inside a structure (XML)
+		if format == "json" {
+			junk := []string{"5", "\"x\"", "null", "[]", "true", "[{}]", "1.5e3"}[r.Intn(7)]
+			locs := c02JSONObj.FindAllIndex(doc, -1)
+			if len(locs) < 2 {
+				return doc, "none"
+			}
+			l := locs[1+r.Intn(len(locs)-1)] // not the top-level object
+			if r.Bool() {
+				return append(append(append([]byte{}, doc[:l[0]]...), (junk + ", ")...), doc[l[0]:]...), "non-object-element"
+			}
+			// replace the whole nested object, up to its matching brace
+			depth, end := 0, -1
+			for i := l[0]; i < len(doc); i++ {
+				if doc[i] == '{' {
+					depth++
+				} else if doc[i] == '}' {
+					depth--
+					if depth == 0 {
+						end = i + 1
+						break
+					}
+				}
+			}
+			if end < 0 {
+				return doc, "none"
+			}
+			return append(append(append([]byte{}, doc[:l[0]]...), junk...), doc[end:]...), "non-object-element"
+		}
+		locs := c02XMLOpen.FindAllIndex(doc, -1)
+		if len(locs) < 2 {
+			return doc, "none"
+		}
+		l := locs[1+r.Intn(len(locs)-1)]
+		junk := []string{"stray text", "<!-- c -->", "<![CDATA[x]]>", "<?pi x?>", "<X><Y/></X>", "&amp;"}[r.Intn(6)]
+		return append(append(append([]byte{}, doc[:l[0]]...), junk...), doc[l[0]:]...), "stray-content"
+	case 10:
+		// a structure whose value is not an array (JSON) / a leaf element with children (XML)
+		if format == "json" {
+			return c02ReplaceNth(c02JSONArr, doc, r.Intn(1000), `"value": `+[]string{"5", "\"x\"", "null", "{}", "true"}[r.Intn(5)]+`, "was": [`), "structure-value-kind"
+		}
+		return c02ReplaceNth(c02XMLLeaf, doc, r.Intn(1000), `><Child type="Integer" value="1"/></Leaf>`), "leaf-with-children"
 	case 0:
 		return append([]byte{}, doc[:r.Intn(len(doc))]...), "truncate"
 	case 1:
